@@ -533,14 +533,15 @@ static nlopt_result add_constraint(nlopt_opt opt,
     if (*m > *m_alloc) {
         /* allocate by repeated doubling so that
            we end up with O(log m) mallocs rather than O(m). */
-        *m_alloc = 2 * (*m);
-        *c = (nlopt_constraint *) realloc(*c, sizeof(nlopt_constraint)
-                                          * (*m_alloc));
-        if (!*c) {
-            *m_alloc = *m = 0;
+        nlopt_constraint *newc = (nlopt_constraint *) realloc(*c, sizeof(nlopt_constraint)
+                                                              * (2 * (*m)));
+        if (!newc) {
+            *m -= 1;
             free(tolcopy);
             return NLOPT_OUT_OF_MEMORY;
         }
+        *m_alloc = 2 * (*m);
+        *c = newc;
     }
 
     (*c)[*m - 1].m = fm;
